@@ -230,9 +230,10 @@ def c08_groups(tier, tag='C08'):
                 note='all 2^32 mask values, all valid (t,basebit) symbolic; loop bounded by the word width (complete)'),
           Group(tag + '.lweKeySwitch', 'c08_keyswitch.c', 'h_lweKeySwitch', defines={'H_KEYSWITCH': None}, extract=[(KS, 'lweKeySwitch')])]
     gs += translate_unbounded_groups(tag, tier) + translate_watched_groups(tag, tier)
-    for (T, B) in ([] if not os.environ.get('VERIF_EXPERIMENTAL') else [(8, 2), (2, 3), (1, 1)]):      # experimental: not registered until it proves on the unchanged tree
+    for (T, B) in ([(8, 2), (2, 3), (1, 1)] if tier == 'quick' else [(t, b) for (t, b) in ks_layouts() if b <= 8]):
         gs.append(Group('%s.LweKeySwitchKey.ctor.unbounded.t=%d.basebit=%d' % (tag, T, B), 'c08_keyswitch.c', 'h_ksctor_unbounded', extract=[('lwekeyswitch.cpp', 'LweKeySwitchKey::LweKeySwitchKey')],
                         loops=True, defines={'H_KSCTOR_U': None, 'VERIF_T': T, 'VERIF_BASEBIT': B}, timeout=900, instance={'t': T, 'basebit': B, 'n': 'symbolic'}))
+        gs[-1].arb_unwind = 4 * T + 3
     if tier == 'quick':
         lay = [(8, 2), (2, 3), (1, 1), (3, 5), (15, 2), (31, 1), (1, 31)]
         ns = [1, 2, 3]
@@ -927,7 +928,7 @@ PROPS = {
                        'centred truncation error <= 2^-(t*basebit+1), carries and wrap; row messages sum to s_i times the rounded value; lweKeySwitch wiring. '
                        'That the real translate loop subtracts exactly the rows those digits select, through the real 3-level table, is a bounded stand-in in n.',
         'assumptions': STD_ASSUME + [
-            'lweKeySwitchTranslate_fromArray, unbounded in n (loop contracts on both loops): (a) ARBITRARY mask, one watched index g_i (symbolic): ks[g_i] points to its own well-formed row block, every other ks[i] to a second one (__CPROVER_array_set gives every index a valid row without a quantifier): in iteration g_i exactly the rows of the non-zero round-to-nearest digits of a[g_i] are subtracted, once each, no other iteration touches them, every other access stays inside its block; (a\') all coordinates equal: exactly NZ(A) subtractions per index, n*NZ(A) in total; (b) the table built by the real constructor (3-level pointer structure, strides): bounded stand-in (n in {1,2,3}(,5)), labelled bounded; layouts with t > 15 only in (b)',
+            'lweKeySwitchTranslate_fromArray, unbounded in n (loop contracts on both loops): (a) ARBITRARY mask, one watched index g_i (symbolic): ks[g_i] points to its own well-formed row block, every other ks[i] to a second one (__CPROVER_array_set gives every index a valid row without a quantifier): in iteration g_i exactly the rows of the non-zero round-to-nearest digits of a[g_i] are subtracted, once each, no other iteration touches them, every other access stays inside its block; (a\') all coordinates equal: exactly NZ(A) subtractions per index, n*NZ(A) in total; (b) the constructor's 3-level table, unbounded in n: second-level entry p points to element p*base of the contiguous array, first-level entry i to second-level entry i*t; (c) constructor and translate together on one concrete table: bounded stand-in (n in {1,2,3}(,5)), labelled bounded; layouts with t > 15 only in (c)',
             'phase conclusion phase(out) = phase(in) + sum_i s_i(a_i - abar_i) - sum noise(rows used): lemma + induction over n, the induction is not machine-checked',
             'noise statistics with a real noisy key-switching key: not decided (statistical)',
             'lweSubTo is the AVX2 assembly in optimised builds; its scalar body is proved in C14',
